@@ -53,8 +53,10 @@ fn check_inner(sub: &str, g: &G, toks: &[char], l: &mut Local) -> CaseRes {
         return fail(case, "C06/span-malformed", format!("error span {}..{} is not a well-formed range of the {}-byte input", es, ee, len));
     }
     // (d) found = token at the start of the span; None iff at the end of input
+    // (a label rewrites a user-supplied error into an expected/found one that has no found token: unspecified)
+    let found_unspecified = refs.iter().any(|r| r.alt.as_ref().map(|a| a.found_fuzzy).unwrap_or(false));
     if let Some(found) = &err.found {
-        if err.custom.is_none() {
+        if err.custom.is_none() && !found_unspecified {
             let at: Option<char> = s[es..].chars().next();
             if *found != at {
                 return fail(case, "C06/found", format!("found = {:?} but the token at the start of the span {}..{} is {:?}", found, es, ee, at));
@@ -82,7 +84,8 @@ fn check_inner(sub: &str, g: &G, toks: &[char], l: &mut Local) -> CaseRes {
                 first.get_or_insert("the reference recorded no failure".into());
                 continue;
             };
-            match cmp_err(a, err, &si.sm, true) {
+            // decorated grammars: position and found only (what the labels / markers say is C17's)
+            match cmp_err(a, err, &si.sm, !sub.starts_with("decorated")) {
                 Ok(()) => {
                     ok = true;
                     break;
@@ -135,7 +138,9 @@ fn check_inner(sub: &str, g: &G, toks: &[char], l: &mut Local) -> CaseRes {
         }
     }
     if let (Some(sf), Some(rf)) = (os.errs.last().and_then(|e| e.found.clone()), err.found.clone()) {
-        if sf != rf && err.custom.is_none() {
+        // (the generated map_err rewrites a Rich error into a user-supplied one, which a label then turns into an
+        // expected/found error without a found token; Simple's is left as it was: not comparable)
+        if sf != rf && err.custom.is_none() && !found_unspecified && !sub.starts_with("decorated") {
             return fail(case, "C06/errtype-found", format!("Simple::found = {:?} but Rich::found = {:?}", sf, rf));
         }
     }
@@ -190,17 +195,28 @@ pub fn cfg_general() -> GenCfg {
     c
 }
 
+/// the strict class with span-preserving decorations (labelled / as_context / map_err) at random nodes:
+/// they must not move the reported error (only the position, span shape and `found` are compared here;
+/// the labels and markers themselves are C17's)
+pub fn cfg_decorated() -> GenCfg {
+    let mut c = cfg_strict();
+    c.label = true;
+    c.map_err = true;
+    c
+}
+
 pub fn decode(tape: &[u32]) -> (G, Vec<char>, &'static str) {
     let mut t = Tape::new(tape);
-    let strict = !t.chance(1, 4);
+    let class = t.weighted(&[9, 3, 4]);
+    let strict = class == 0;
     let (g, alpha) = {
-        let mut gg = GGen::new(&mut t, if strict { cfg_strict() } else { cfg_general() });
+        let mut gg = GGen::new(&mut t, if strict { cfg_strict() } else if class == 1 { cfg_general() } else { cfg_decorated() });
         let d = 1 + gg.t.pick(5) as u32;
         let g = gg.gen(d, false);
         (g, gg.alpha.clone())
     };
     let input = gen_input(&g, &mut t, &alpha, 12);
-    (g, input, if strict { "strict" } else { "general" })
+    (g, input, if strict { "strict" } else if class == 1 { "general" } else { "decorated" })
 }
 
 /// hand-shaped templates: one per failure-bookkeeping site named in the property's anchors
